@@ -32,9 +32,9 @@ Stutter == UNCHANGED vars
 Bind(c) == Ev.i = I(c) /\ Ev.pre = arr[I(c)] /\ Ev.post = arr'[I(c)]
 
 TrCS(c) ==
-  \/ /\ Ev.m = "acqR" /\ Ev.post # Ev.pre /\ TryRead(c) /\ Bind(c)
+  \/ /\ Ev.m = "acqR" /\ Ev.post # Ev.pre /\ (TryRead(c) \/ NTryRead(c)) /\ Bind(c)
   \/ /\ Ev.m = "acqR" /\ Ev.post = Ev.pre /\ pc[c] = "gsR" /\ arr[I(c)] < 0 /\ Stutter /\ Bind(c)   \* failed attempt, will sleep
-  \/ /\ Ev.m = "relR" /\ (RelReadMid(c) \/ RelReadFinal(c) \/ (ErrRelease(c) /\ held[c][K(c)] > 0)) /\ Bind(c)
+  \/ /\ Ev.m = "relR" /\ (RelReadMid(c) \/ RelReadFinal(c) \/ NRelRead(c) \/ (ErrRelease(c) /\ held[c][K(c)] > 0)) /\ Bind(c)
   \/ /\ Ev.m = "acqW" /\ Ev.post # Ev.pre /\ (TryWriteGs(c) \/ TryWriteRmv(c)) /\ Bind(c)
   \/ /\ Ev.m = "acqW" /\ Ev.post = Ev.pre /\ pc[c] \in {"gsW","rmW"} /\ arr[I(c)] # 0 /\ Stutter /\ Bind(c)
   \/ /\ Ev.m = "relW" /\ (RelWrite(c) \/ (ErrRelease(c) /\ held[c][K(c)] = -1)) /\ Bind(c)
@@ -43,12 +43,14 @@ TrCS(c) ==
 TrEvent(c) ==
   \/ Ev.e = "begin"    /\ Dispatch(c)
   \/ Ev.e = "cs"       /\ TrCS(c)
-  \/ Ev.e = "contains" /\ Ev.k = K(c) /\ Ev.res = Contains(K(c)) /\ (Check1(c) \/ Check2(c) \/ RmvProbe(c))
-  \/ Ev.e = "get"      /\ Ev.k = K(c) /\ InnerGet(c)
+  \/ Ev.e = "contains" /\ Ev.k = K(c) /\ Ev.res = Contains(K(c)) /\ (Check1(c) \/ Check2(c) \/ RmvProbe(c) \/ NCheck(c) \/ NRmvProbe(c))
+  \/ Ev.e = "get"      /\ Ev.k = K(c) /\ (InnerGet(c) \/ NInnerGet(c))
+  \/ Ev.e = "nest"     /\ NestStart(c)                     \* the caller starts an operation on the same key inside its body
+  \/ Ev.e = "nraise"   /\ NRmvRaise(c)                     \* rmv inside the body refused with an exception
   \/ Ev.e = "putB"     /\ Ev.k = K(c) /\ PutBegin(c)
   \/ Ev.e = "putE"     /\ Ev.k = K(c) /\ Ev.g = Op(c).g /\ PutEnd(c)
-  \/ Ev.e = "enter"    /\ (EnterAfterPut(c) \/ (pc[c] = "body" /\ Stutter))
-  \/ Ev.e = "bodyExit" /\ Ev.ok /\ BodyExit(c)          \* the value read in the body was complete
+  \/ Ev.e = "enter"    /\ (EnterAfterPut(c) \/ (pc[c] \in {"body","nBody"} /\ Stutter))
+  \/ Ev.e = "bodyExit" /\ Ev.ok /\ (BodyExit(c) \/ NBodyExit(c))          \* the value read in the body was complete
   \/ Ev.e = "rmv"      /\ Ev.k = K(c) /\ InnerRmv(c)
 
 TraceNext == /\ l <= Len(Evs) /\ TrEvent(Ev.c) /\ l' = l + 1 /\ UNCHANGED tid
